@@ -1,7 +1,8 @@
 /-
 Core F — helper lemmas for C16, part 2: invariants of the life-cycle model.
 
-* `InvA` — wait-group accounting, the deferred ring closes, the receiver's reservation, the sender's window
+* `InvA` — wait-group accounting, the deferred ring closes, the receiver reads only into free space (at `.read`
+           the incoming ring is not full, at `.commit n` the `n` bytes fit), the sender's window
 * `InvW` — `wmu` is held exactly by the thread inside `writeMessage`'s critical section
 * `InvK` — `stop()`: one winner of the CAS, how far it got, its effects exactly once and in order
 -/
@@ -32,8 +33,8 @@ structure InvA (c : Cfg) (s : St) : Prop where
   wg : s.sh.wg = cnt s
   rdone : RPc.closedRing s.recv = true → s.sh.inR.done = true
   sdone : SPc.closedRing s.send = true → s.sh.outR.done = true
-  rread : s.recv = .read → s.sh.inR.buf + c.rblock ≤ c.cap
-  rcommit : ∀ n, s.recv = .commit n → n ≤ c.rblock ∧ s.sh.inR.buf + c.rblock ≤ c.cap
+  rread : s.recv = .read → s.sh.inR.buf < c.cap                  -- a socket read is issued only into free space
+  rcommit : ∀ n, s.recv = .commit n → s.sh.inR.buf + n ≤ c.cap   -- what was read fits: `WriteCommit` never waits
   swin : SWin s
 
 /-- a state a connection starts in: the three goroutines at the top of their loops, any ring
@@ -107,7 +108,8 @@ theorem invA_recv (c : Cfg) (hw : WF c) (s : St) (sh' : Sh) (pc' : RPc) (k : Nat
   | space =>
     rw [hpc] at h
     simp only [rstep] at h
-    cases hs : s.sh.inR.waitSpace c c.rblock with
+    rw [spaceNeed_wf c hw] at h
+    cases hs : s.sh.inR.waitSpace c 1 with
     | none => simp [hs] at h
     | some q =>
       obtain ⟨ret, r⟩ := q
@@ -116,7 +118,7 @@ theorem invA_recv (c : Cfg) (hw : WF c) (s : St) (sh' : Sh) (pc' : RPc) (k : Nat
       · refine ⟨?_, ?_, hi.sdone, ?_, ?_, hi.swin⟩
         · simpa [cnt, hpc] using hwg
         · simp [RPc.closedRing]
-        · intro _; exact (hok rfl).2.2
+        · intro _; have := (hok rfl).2.2; simp only at this ⊢; omega
         · intro n hn; cases hn
       all_goals
         refine ⟨?_, ?_, hi.sdone, ?_, ?_, hi.swin⟩
@@ -144,9 +146,9 @@ theorem invA_recv (c : Cfg) (hw : WF c) (s : St) (sh' : Sh) (pc' : RPc) (k : Nat
         · intro hn; cases hn
         · intro n hn
           have hr := hi.rread hpc
-          have := hw.rblock
           simp at hn; subst hn
-          refine ⟨?_, hr⟩
+          rw [readMax_wf c hw]
+          simp only
           omega
   | commit n =>
     rw [hpc] at h
@@ -508,7 +510,7 @@ theorem rstep_wmu (c : Cfg) (hw : WF c) (sh sh' : Sh) (k : Nat) (pc pc' : RPc)
   cases pc with
   | space =>
     simp only [rstep] at h
-    cases hs : sh.inR.waitSpace c c.rblock with
+    cases hs : sh.inR.waitSpace c c.spaceNeed with
     | none => simp [hs] at h
     | some q => obtain ⟨ret, r⟩ := q; cases ret <;> simp [hs] at h <;> obtain ⟨rfl, rfl⟩ := h <;> rfl
   | read =>
